@@ -37,7 +37,7 @@ func genLimCase(r *simrt.Rand, tier string) *LimCase {
 	c := &LimCase{Seed: r.Uint64(), Server: r.Bool(0.6), Piece: r.Pick(1, 7, 64, 1024, 65536, 1<<20)}
 	c.Limit = r.Pick(1, 10, 125, 126, 1000, 4096, 65536, 100000)
 	c.ReadLimit = r.Pick(0, 64, 1024, 65536)
-	c.Scenario = r.PickS("single", "single", "fragments", "fragments", "bomb", "bomb", "control-recv", "control-send", "trickle")
+	c.Scenario = r.PickS("single", "single", "fragments", "fragments", "bomb", "bomb", "control-recv", "control-send", "trickle", "cfragments")
 	c.Size = c.Limit + r.Pick(-1, 0, 1, 1, 2, 100)
 	if c.Size < 0 {
 		c.Size = 0
@@ -69,6 +69,10 @@ func genLimCase(r *simrt.Rand, tier string) *LimCase {
 				c.Size = 1000
 			}
 		}
+	case "cfragments":
+		// an unfinished compressed message: fragments of an (incompressible) deflate stream,
+		// each within the limit, together three times above it, no final frame
+		c.Size = 3*c.Limit + 7
 	case "control-recv", "control-send":
 		c.Size = r.Pick(124, 125, 126, 127, 200)
 	case "trickle":
@@ -106,7 +110,7 @@ func runLim(t *testing.T, ci interface{}, trace bool) *common.Outcome {
 	o := &common.Outcome{}
 	e := newEnv(true)
 	defer e.close()
-	compression := c.Scenario == "bomb"
+	compression := c.Scenario == "bomb" || c.Scenario == "cfragments"
 	end := newWSEnd(e, wsCfg{Client: !c.Server, Compression: compression, Limit: c.Limit, ReadLimit: c.ReadLimit})
 	role := "client"
 	if c.Server {
@@ -149,6 +153,28 @@ func runLim(t *testing.T, ci interface{}, trace bool) *common.Outcome {
 				op = 2
 			}
 			wire = append(wire, Frame{Fin: i == len(c.Parts)-1, Op: op, Masked: c.Server, Payload: mk(p)}.encode(key)...)
+		}
+	case "cfragments":
+		noise := make([]byte, c.Size)
+		x := c.Seed | 1
+		for i := range noise {
+			x ^= x << 13
+			x ^= x >> 7
+			x ^= x << 17
+			noise[i] = byte(x)
+		}
+		z := deflate(noise, 9)
+		part := c.Limit/2 + 1
+		for off, first := 0, true; off < len(z); off += part {
+			e2 := off + part
+			if e2 > len(z) {
+				e2 = len(z)
+			}
+			f := Frame{Fin: false, Op: 0, Masked: c.Server, Payload: z[off:e2]}
+			if first {
+				f.Op, f.Rsv, first = 2, 4, false
+			}
+			wire = append(wire, f.encode(key)...)
 		}
 	case "bomb":
 		wire = Frame{Fin: true, Rsv: 4, Op: 2, Masked: c.Server, Payload: c.deflate(mk(c.Size))}.encode(key)
